@@ -992,6 +992,20 @@ impl Model {
             return;
         };
         let used_alias = props.as_ref().and_then(|x| x.topic_alias).is_some();
+        if let Some(a) = props.as_ref().and_then(|x| x.topic_alias) {
+            // MQTT 5, 3.3.2.3.4: the sender must stay within the Topic Alias Maximum the receiver announced
+            // (none announced = 0 = no aliases at all); a conforming subscriber treats anything else as a
+            // protocol error, so the message does not reach it "with the original topic"
+            self.eval("forward-alias-within-maximum");
+            let max = self.conns[conn].alias_max;
+            if a == 0 || a > max {
+                out.push(
+                    Record::new(p01, "forward-alias-beyond-maximum", format!("'{client}': forward of '{payload}' carries topic alias {a} but the subscriber announced Topic Alias Maximum {max}"))
+                        .fact("announced_maximum_zero", max == 0),
+                );
+                return;
+            }
+        }
         let ids: Vec<usize> = props.as_ref().map(|x| x.subscription_identifiers.clone()).unwrap_or_default();
 
         // ---- window / packet id clauses (C09), judged at the router/link boundary
